@@ -39,6 +39,8 @@ def curated(ext_modes=("sinks", "all", "interior")) -> list[JobSpec]:
     out.append(simple_job("multi/split", 3, [(0, 1), (0, 2)], "all", outs={0: ["a", "b"]}, src_out={(0, 2): "b"}))
     # 3-output producer with outputs whose key order differs from a natural reading
     out.append(simple_job("multi/three", 3, [(0, 1), (0, 2)], "all", outs={0: ["x", "a", "m"]}, src_out={(0, 1): "x", (0, 2): "a"}))
+    # a multi-output task that itself consumes a dataset (outputs declared in an order that is not their sorted order)
+    out.append(simple_job("multi/mid", 4, [(0, 1), (0, 2), (1, 3)], "sinks", outs={1: ["x", "a", "m"]}, src_out={(1, 3): "x"}))
     # keyword and positional edges mixed
     out.append(simple_job("mixed-kw", 3, [(0, 2), (1, 2)], "all", kw_edges=[(1, 2)]))
     # one dataset feeding two parameters of the same task (positional + keyword)
@@ -47,6 +49,12 @@ def curated(ext_modes=("sinks", "all", "interior")) -> list[JobSpec]:
         "t1": {"outs": ["0"], "ps": {1: "s1"}, "kw": {"c": 1}},
     }
     out.append(JobSpec("same-ds-twice", t, [("t0", "0", "t1", 0), ("t0", "0", "t1", "again")], [("t1", "0"), ("t0", "0")]))
+    # a keyword edge into a parameter that also carries a static (default) value: the upstream value must win
+    t2 = {
+        "t0": {"outs": ["0"], "ps": {0: "s0"}, "kw": {}},
+        "t1": {"outs": ["0"], "ps": {0: "s1"}, "kw": {"p": "default-of-p", "q": "untouched"}},
+    }
+    out.append(JobSpec("kw-edge-over-default", t2, [("t0", "0", "t1", "p")], [("t1", "0")]))
     # requested output that also has consumers elsewhere (replication of a requested dataset)
     out.append(simple_job("fork/root-requested", 3, [(0, 1), (0, 2)], [(0, "0"), (1, "0")]))
     out.append(simple_job("diamond/root+sink", 4, [(0, 1), (0, 2), (1, 3), (2, 3)], [(0, "0"), (3, "0")]))
@@ -67,6 +75,20 @@ def widened_c03() -> list[JobSpec]:
     return out
 
 
+def wide_configs(quick: bool) -> list[Config]:
+    """Fan-outs wider than the producing host, with blockers that keep the other host busy, so that consumers of one
+    dataset are scheduled in different rounds on sibling workers and on remote hosts (batch bound 1: these are large)."""
+    specs = [simple_job("fan3+join/sinks", 7, [(0, 1), (0, 2), (0, 3), (4, 6), (5, 6)], "sinks")]
+    if not quick:
+        specs += [
+            simple_job("fan3+2iso/sinks", 6, [(0, 1), (0, 2), (0, 3)], "sinks"),
+            simple_job("fan3+join/root", 7, [(0, 1), (0, 2), (0, 3), (4, 6), (5, 6)], [(0, "0"), (6, "0")]),
+            simple_job("chainfan+iso/sinks", 6, [(0, 1), (1, 2), (1, 3), (1, 4)], "sinks"),
+        ]
+    shapes = [(2, 2)] if quick else [(2, 2), (3, 1), (2, 1)]
+    return [Config(s, h, w, (), 1) for s in specs for (h, w) in shapes]
+
+
 def gpu_configs(batch: int) -> list[Config]:
     """GPU tasks with every GPU-worker subset that keeps the job feasible (>= 1 gpu worker)."""
     out = []
@@ -74,6 +96,8 @@ def gpu_configs(batch: int) -> list[Config]:
         simple_job("gpu-2comp", 4, [(0, 1), (2, 3)], "sinks", gpu=[1]),
         simple_job("gpu-chain", 3, [(0, 1), (1, 2)], "sinks", gpu=[1]),
         simple_job("gpu-fork", 3, [(0, 1), (0, 2)], "sinks", gpu=[1, 2]),
+        simple_job("gpu-src-join", 4, [(0, 3), (1, 3), (2, 3)], "sinks", gpu=[0]),      # a GPU source next to CPU sources
+        simple_job("gpu-src+cpu-iso", 3, [(0, 2)], "sinks", gpu=[0]),                    # GPU source, CPU source, consumer
     ]
     for spec in specs:
         for hosts, workers in [(1, 2), (2, 1), (2, 2)]:
@@ -173,7 +197,7 @@ def run_family(ctx: common.Ctx, prop: str, configs: list[Config], max_exec: int,
         # outcome must not depend on the schedule: report as a violation of C01
         for label, outs in multi_outcome[:3]:
             ctx.add_violation(common.Violation({"monitor": "schedule_dependent_outcome", "cause": "more than one terminal outcome for one configuration"},
-                                               f"{label}: {outs[:3]}", {"config": configs[[c.label() for c in configs].index(label)].describe(), "choices": []}))
+                                               f"{label}: {outs[:3]}", {"config": configs[[c.label() for c in configs].index(label)].describe(), "choices": [], "explore": True}))
     return {"results": results, "configs": configs}
 
 
